@@ -444,7 +444,9 @@ def random_episode(rnd, profile, tid, maxlen):
             continue
         # the SAME real objects live through the episode; pre = projection of their current contents
         DD, mag = lattice_of(heap, act)
-        if DD > (64 if f32 else 4096) or mag > (64 if f32 else 4096):
+        # bounds keep TLC's 32-bit rational arithmetic (cross-multiplications in Q / C operations) far from overflow
+        lim_d, lim_m = (8, 32) if profile == 'C' else ((16, 64) if f32 else (32, 256))
+        if DD > lim_d or mag > lim_m:
             break                       # the exact result would leave the lattice that snapping can resolve
         pre = [list(v) for v in heap]
         ev, info, res = observe(cz, objs, act, plen, DD, pre)
@@ -455,6 +457,8 @@ def random_episode(rnd, profile, tid, maxlen):
             break
         heap = [list(v) for v in ev['post']]
         if ev['ret']['k'] == 'new' and len(objs) < 4:
+            if res not in cz.space:     # NumPy-dispatched result wrapped in another space (drift, see observe): re-wrap
+                res = cz.space.element(np.asarray(res).reshape(cz.space.shape).astype(cz.dtype))
             objs.append(res)            # the fresh result stays alive as a new object
             heap.append(ev['ret']['v'])
     return events
@@ -545,6 +549,7 @@ def run(ctx):
                                   {'stage': 'replay', 'case': case, 'concretisation': list(combo), 'prefill': prefill,
                                    'observed': ev, 'info': info})
     ctx.traces += len(events)
+    n_replay_events = len(events)
 
     # ---- 3. random driver ----
     rnd = random.Random(ctx.seed * 7919 + 13)
@@ -562,14 +567,20 @@ def run(ctx):
     # ---- 4. TLC trace validation (chunks, in parallel) ----
     chunk = 6000
     files = []
-    for ci in range(0, len(events), chunk):
-        p = os.path.join(work, 'trace_%d.ndjson' % (ci // chunk))
+    random_files = set()
+    # replayed transitions and random episodes go to separate chunks
+    bounds = list(range(0, n_replay_events, chunk)) + list(range(n_replay_events, len(events), 1500))
+    spans = [(b, min([x for x in bounds + [len(events)] if x > b])) for b in bounds]
+    for n_chunk, (ci, cj) in enumerate(spans):
+        p = os.path.join(work, 'trace_%d.ndjson' % n_chunk)
         with open(p, 'w') as f:
-            for k, (ev, info, combo) in enumerate(events[ci:ci + chunk]):
+            for k, (ev, info, combo) in enumerate(events[ci:cj]):
                 e = dict(ev)
                 e['id'] = ci + k
                 f.write(json.dumps(e) + '\n')
         files.append(p)
+        if ci >= n_replay_events:
+            random_files.add(p)
 
     def val(p):
         return p, run_tlc('Trace_VecMachine.tla', 'Trace_VecMachine.cfg', work, env={'TRACE_FILE': p}, workers=1,
@@ -579,23 +590,25 @@ def run(ctx):
         vres = list(ex.map(val, files))
     nfail = 0
     for p, res in vres:
+        if res.status == 'machinery' and 'Overflow' in res.output and p in random_files:
+            # a random episode left the range of TLC's 32-bit integers: that chunk gives no verdict (never a wrong one)
+            ctx.skip('random-episode trace chunk %s not validated: TLC integer overflow' % os.path.basename(p))
+            continue
         ctx.add_tlc('trace-' + os.path.basename(p), res)
         for _ln, _eid, _cl in parse_fails(res.output):
-            if True:
-                nfail += 1
-                m = _FailM(_eid, _cl)
-                eid = int(m.group(2))
-                ev, info, combo = events[eid]
-                clauses = sorted(set(re.findall(r'<<\s*"([\w-]+)"', m.group(3))))
-                for clause in clauses:
-                    act = ev['act']
-                    cl = clause
-                    if clause == 'value':
-                        objs = [int(o) for o in re.findall(r'<<\s*"value",\s*(\d+)\s*>>', m.group(3))]
-                        cl = 'value' if target(act) in objs else 'frame'
-                    ctx.violation(signature(act, combo, cl),
-                                  {'stage': 'trace', 'event': ev, 'concretisation': list(combo), 'info': info,
-                                   'tlc_clauses': m.group(3)})
+            nfail += 1
+            eid = _eid
+            ev, info, combo = events[eid]
+            clauses = sorted(set(re.findall(r'<<\s*"([\w-]+)"', _cl)))
+            for clause in clauses:
+                act = ev['act']
+                cl = clause
+                if clause == 'value':
+                    objs = [int(o) for o in re.findall(r'<<\s*"value",\s*(\d+)\s*>>', _cl)]
+                    cl = 'value' if target(act) in objs else 'frame'
+                ctx.violation(signature(act, combo, cl),
+                              {'stage': 'trace', 'event': ev, 'concretisation': list(combo), 'info': info,
+                               'tlc_clauses': _cl})
     ctx.extra['trace_events_validated_by_tlc'] = len(events)
     ctx.extra['trace_events_rejected_by_tlc'] = nfail
     for msg in sorted(DRIFT):
